@@ -40,6 +40,9 @@ fn main() {
         .stack_size(16 << 20)
         .build_global()
         .unwrap();
+    if args[1] == "--c18-scenario" {
+        std::process::exit(props::c18::child(&args[2], args[3].parse().unwrap(), &args[4], &args[5]));
+    }
     if args[1] == "--c12-ref" {
         std::process::exit(props::c12::child_ref(args[2].parse().unwrap()));
     }
@@ -88,6 +91,7 @@ fn main() {
         "C12" => props::c12::run(tier),
         "C13" => props::c13::run(tier),
         "C17" => props::c17::run(tier),
+        "C18" => props::c18::run(tier),
         "C14" => props::c14::run(tier),
         "C15" => props::c15::run(tier),
         "C16" => props::c16::run(tier),
@@ -112,6 +116,7 @@ pub fn replay_case(case: &serde_json::Value, verbose: bool) -> Vec<String> {
         "C12" => props::c12::replay(case, verbose),
         "C13" => props::c13::replay(case, verbose),
         "C17" => props::c17::replay(case, verbose),
+        "C18" => props::c18::replay(case, verbose),
         "C14" => props::c14::replay(case, verbose),
         "C15" => props::c15::replay(case, verbose),
         "C16" => props::c16::replay(case, verbose),
